@@ -659,6 +659,9 @@ class NestedExtensionArray(ExtensionArray):
     def __init__(self, values: pa.Array | pa.ChunkedArray, *, validate: bool = True) -> None:
         if isinstance(values, pa.Array):
             values = pa.chunked_array([values])
+        # Chunk-wise code assumes at least one chunk, keep a single empty one for an empty array
+        if values.num_chunks == 0:
+            values = pa.chunked_array([pa.array([], type=values.type)])
 
         # Convert list-struct array to struct-list array
         if is_pa_type_a_list(values.type):
